@@ -31,21 +31,29 @@ Ltac destr_inner :=
 Ltac nomatch x := lazymatch x with context [match _ with _ => _ end] => fail | _ => idtac end.
 
 (* Generic machinery for an invariant [J] preserved by every function:
-   at a call [g a x] whose argument is match-free, prove J x from the context,
-   apply the callee's lemma and name the result. *)
-Ltac solveJ J := unfold J in *; cbn in *; intuition (auto; try congruence).
-
-Ltac call1 J g lem :=
+   at a call [g a x] whose argument is match-free, prove J x with the [leaf] tactic,
+   apply the callee's lemma and name the result (its defining equation is dropped:
+   normalising nested record updates makes proof terms explode). *)
+Ltac call1 J g lem leaf :=
   match goal with
   | |- context [g ?x] => nomatch x;
-      let Hx := fresh "Hx" in assert (Hx : J x) by solveJ J;
+      let Hx := fresh "Hx" in assert (Hx : J x) by leaf;
       let K := fresh "K" in pose proof (lem x Hx) as K;
       let r := fresh "r" in let E := fresh "E" in remember (g x) as r eqn:E; clear Hx E
   end.
-Ltac call2 J g lem :=
+Ltac call2 J g lem leaf :=
   match goal with
   | |- context [g ?a ?x] => nomatch x;
-      let Hx := fresh "Hx" in assert (Hx : J x) by solveJ J;
+      let Hx := fresh "Hx" in assert (Hx : J x) by leaf;
       let K := fresh "K" in pose proof (lem a x Hx) as K;
       let r := fresh "r" in let E := fresh "E" in remember (g a x) as r eqn:E; clear Hx E
+  end.
+(* handle_fault returns a pair *)
+Ltac callhf J lem side leaf :=
+  match goal with
+  | |- context [handle_fault ?now ?c ?x] => nomatch x;
+      let Hx := fresh "Hx" in assert (Hx : J x) by leaf;
+      let K := fresh "K" in pose proof (lem now c x ltac:(side) Hx) as K;
+      let r := fresh "r" in let b := fresh "b" in
+      destruct (handle_fault now c x) as [r b]; cbn [fst snd] in K; clear Hx
   end.
